@@ -321,6 +321,10 @@ def run(ctx: Any, prog: Program) -> None:
                 return 'fourcc'         # `= len(lump.data)` when compressed, `= 0` otherwise: the fourCC slot doubling as uncompressed size
             if kinds_ == {'zero'}:
                 return 'zero'
+            if kinds_ == {'offset', 'zero'}:
+                # a position on some paths, a literal 0 on others: read() tells the two header layouts apart by whether the first field
+                # of lump 0 is zero, so the offset slot must never be 0 in the normal layout
+                return 'offset-or-zero'
             # parameters of a helper keep their names: fall back to the spelling
             s_ = e.id
             if s_ in ('offset', 'lump_start', 'file_off'):
@@ -377,7 +381,8 @@ def run(ctx: Any, prog: Program) -> None:
                 raise AnalysisError(f'BSP.save:{n.lineno}: header set_data call not under a GameVersion.L4D2 test')
             want = l4d2_roles if is_l4d2 else hdr_unpack
             norm = [('fourcc' if r == 'zero' and w == 'fourcc' else ('version' if r == 'zero' and w == 'version' else r)) for r, w in zip(roles, want)]
-            ctx.check('C10.B4', norm == want, bsp, n, f'save() writes the {"L4D2" if is_l4d2 else "normal"} lump header as {roles} but read() interprets the four fields as {want}',
+            ctx.check('C10.B4', norm == want, bsp, n, f'save() writes the {"L4D2" if is_l4d2 else "normal"} lump header as {roles} but read() interprets the four fields as {want}'
+                      + (' (the offset is 0 on some paths: read() takes a v21 file whose first header field is 0 for the L4D2 layout, so every header is then read rotated)' if 'offset-or-zero' in roles else ''),
                       func='BSP.save', text=f'header order {"L4D2" if is_l4d2 else "normal"}: {U(n)[:50]}')
     # the same through a helper: `defer.set_data(lump_name, *self._helper(offset, length, version, fourcc))` where the helper arranges its
     # parameters into a tuple, differently under the L4D2 test.  The tuple is evaluated symbolically (names, constant slices, concatenation).
@@ -681,6 +686,7 @@ def run(ctx: Any, prog: Program) -> None:
 
 
 MUTANTS = [
+    {'id': 'empty_lump_offset_zero', 'file': 'bsp.py', 'find': "                    else:\n                        lump_data = lump.data\n                        lump_fourcc = 0\n", 'replace': "                    else:\n                        lump_data = lump.data\n                        lump_fourcc = 0\n                    lump_start = file.tell()\n                    if not lump_data:\n                        lump_start = 0\n", 'extra': [{'file': 'bsp.py', 'find': "                        defer.set_data(lump_name, file.tell(), len(lump_data), lump.version, lump_fourcc)", 'replace': "                        defer.set_data(lump_name, lump_start, len(lump_data), lump.version, lump_fourcc)"}], 'expect': 'C10.B4', 'note': 'round 11: offset 0 for empty lumps trips the L4D2 sniff'},
     {'id': 'face_lookup_closures_memoised_on_self', 'file': 'bsp.py', 'find': "        add_texinfo = find_or_insert(self.texinfo)\n        add_plane = find_or_insert(self.planes)\n", 'replace': "        if getattr(self, '_face_finders', None) is None:\n            self._face_finders = (find_or_insert(self.texinfo), find_or_insert(self.planes))\n        add_texinfo, add_plane = self._face_finders\n", 'expect': 'C10.B11'},
     {'id': 'get_swaps_raw_data_out_before_reading', 'file': 'bsp.py', 'find': "            data = instance.lumps[self.lump].data\n            LOGGER.debug('Load game lump {} ({} bytes)', self.lump, len(data))", 'replace': "            raw = instance.lumps[self.lump]\n            data, raw.data = raw.data, b''\n            LOGGER.debug('Load game lump {} ({} bytes)', self.lump, len(data))", 'expect': 'C10.B6'},
     {'id': 'lzma_decoder_split_swapped', 'file': 'binformat.py', 'find': "    pb = props // 5\n    lp = props % 5\n", 'replace': "    lp = props // 5\n    pb = props % 5\n", 'expect': 'C10.B10'},
